@@ -729,6 +729,7 @@ pub fn run(ctx: &Ctx) {
       }
     }
   }
+  l.traces += 1;
   ctx.add(&l);
   ctx.subspace("10 stems, 12 branches, 10x10 and 10x12 pairs, 5 elements, 9 directions/lands, 60 pillars, 28 mansions, 9+12+6 stars, 366 (month, day), 13 lunar months, 60 fetal pillars, 10x12x12 palace signs: every attribute compared with the classical encoding", true, l.states);
   ctx.sample(format!("乙 -> 甲 ten star: impl {:?}, rule {}", guard(|| HeavenStem::from_name("乙").get_ten_star(HeavenStem::from_name("甲")).get_name()), ten_star("乙", "甲")));
